@@ -49,6 +49,10 @@ def shapes():
                                {"decl": "int * fthree(int n) +owner(caller)+dimension(n)+deref(pointer)"},
                                {"decl": "class Cone", "declarations": [{"decl": "Cone()"}, {"decl": "~Cone()"}]},
                                dict({"decl": "void ftwo(double b)"}, **o2)],
+        # the override sits on a namespace: its members inherit it, and the namespace gets files of its own only
+        # for the languages that are on for it
+        "ns-off": lambda o2: [{"decl": "int fone(int a)"},
+                              dict({"decl": "namespace hidden", "declarations": [{"decl": "void ftwo(double b)"}]}, **o2)],
         # the override sits deep inside: a wrapper switched on only there still has to be written
         "ns-inner": lambda o2: [{"decl": "namespace outer", "declarations": [{"decl": "int fone(int a)"},
                                                                              dict({"decl": "void ftwo(double b)"}, **o2)]}],
@@ -177,7 +181,12 @@ def run_config(base, idx, shape, lib, ov, dirs):
     for w in writes:
         if kind_of.get(w["cls"]) in ("c", "f"):
             digests[w["fname"]] = hashlib.sha1(texts.get((w["dir"], w["fname"]), "").encode()).hexdigest()
-    return {"kind": "run", "cfg": cfgrec, "writes": writes, "cfiles": readlist("cfiles.txt"),
+    scopes = []
+    if shape == "ns-off":
+        eff = {k: (ov[k] if ov["has"] and (ov["only"] == "all" or k in ("c", "f")) else lib[k]) for k in LANGS}
+        scopes = [{"file": "wrapfsel_hidden.f", "on": bool(eff["f"] and eff["c"])},
+                  {"file": "wrapsel_hidden.cpp", "on": bool(eff["c"])}]
+    return {"kind": "run", "scopes": scopes, "cfg": cfgrec, "writes": writes, "cfiles": readlist("cfiles.txt"),
             "ffiles": readlist("ffiles.txt"), "listing": listing, "aux": aux, "present": present,
             "label": (shape, lib, ov, dirs), "digests": digests}
 
@@ -254,7 +263,7 @@ def run(tier):
                 k = json.loads(json.dumps(t))
                 k["a"][0][1] = "0"
                 controls.append(k)
-        keep = {"run": ("kind", "cfg", "writes", "cfiles", "ffiles", "listing", "aux", "present"),
+        keep = {"run": ("kind", "scopes", "cfg", "writes", "cfiles", "ffiles", "listing", "aux", "present"),
                 "toggle": ("kind", "a", "b")}
         alltr = []
         for t in traces + controls:
